@@ -455,12 +455,17 @@ nni_posix_tcp_start(nni_tcp_conn *c, int nodelay, int keepalive)
 	    fd, SOL_SOCKET, SO_KEEPALIVE, &keepalive, sizeof(int));
 
 	struct sockaddr_storage ss;
-	socklen_t               len = sizeof(ss);
+	socklen_t               len;
 
-	// Get this info now so we can avoid system calls later.
-	(void) getpeername(fd, (void *) &ss, &len);
-	nni_posix_sockaddr2nn(&c->peer, &ss, len);
+	// Get this info now so we can avoid system calls later.  (If the
+	// peer has already gone the address stays unspecified.)
+	len = sizeof(ss);
+	if (getpeername(fd, (void *) &ss, &len) == 0) {
+		nni_posix_sockaddr2nn(&c->peer, &ss, len);
+	}
 
-	(void) getsockname(fd, (void *) &ss, &len);
-	nni_posix_sockaddr2nn(&c->self, &ss, len);
+	len = sizeof(ss);
+	if (getsockname(fd, (void *) &ss, &len) == 0) {
+		nni_posix_sockaddr2nn(&c->self, &ss, len);
+	}
 }
